@@ -61,8 +61,8 @@ POOL = [
     "f := {|| invite!(\"dummy\"); message}; f().p; nil.try.{|u| message}.A.p", "d := import(\"dummy\"); d.message.p; nil.try.{|u| message}.A.p",
     "nil.try.{|u| message}.A", "[nil.try.{|u| Response}.err.S, nil.try.{|u| Client}.err.S, nil.try.{|u| C}.err.S, nil.try.{|u| Server}.err.S, nil.try.{|u| _internal}.err.S].p",
     # top-level definitions with the names the Pangaea-written natives refer to freely, and programs that call such natives
-    "Obj := 1; BaseObj := 2; Arr := 3; Map := 4; JSON := 5; StopIterErr := 6; Either := 7; EitherVal := 8; Iterable := 9; nil",
-    "[{a: 1}.ancestors.len, [1, 2].chain([3]).A, \"[1]\".decJSON, [[1, 2], [3, 4]].T, [1, 1].tally.len, 1.try.A, {a: 1}.kindOf?({a: 1}.proto), [1].bro([2]), 5.nil?].p",
+    "Arr := 3; Map := 4; JSON := 5; nil", "[nil.try.{|u| \"[1]\".decJSON}.A, nil.try.{|u| [[1, 2], [3, 4]].T}.A, nil.try.{|u| [1, 1].tally.len}.A].p",
+    "Either := 7; EitherVal := 8; StopIterErr := 6; nil", "[nil.try.{|u| 1.try.A}.A, nil.try.{|u| [1, 2].chain([3]).A}.A, nil.try.{|u| [1].first}.A].p",
     "ValueErr := 1; TypeErr := 2; ZeroDivisionErr := 3; nil", "[nil.try.{|u| [].avg}.err.S, nil.try.{|u| 'a.call(1)}.A, nil.try.{|u| \"x\".call(1)}.err.S].p",
     # programs that read part, all, or more than all of their standard input
     "[<>, <>]", "<>; <>; <>", "a := <>; a.p; 1",
